@@ -83,6 +83,28 @@ static char* sym() { char* p = (char*)vf_alloc(SN); for (sz i = 0; i < SN; i++) 
 // C string in a block of exactly SN+1 bytes: SN symbolic characters (a '\0' among them simply ends the text earlier) and a terminator
 static char* symz() { char* p = (char*)vf_alloc(SN + 1); for (sz i = 0; i < SN; i++) p[i] = char(vf_nd_u8()); p[SN] = '\0'; return p; }
 static sz zlen(char const* p) { sz n = 0; while (p[n] != '\0') n++; return n; }
+// Texts at the type limits (q_lim_*): LIMTXT is the text of a limit of the result type in base BASE (spec.py); its first LEAD and
+// last TAIL characters are symbolic over all 256 values, the characters in between are the limit's own digits. So every query
+// covers a window of values around (and beyond) the limit, plus garbage endings, at the cost of a few symbolic characters.
+#ifdef LIMTXT
+#ifndef LEAD
+#define LEAD 0
+#endif
+#ifndef TAIL
+#define TAIL 3
+#endif
+static constexpr sz LIMN = sizeof(LIMTXT) - 1;
+static char* limz()
+{
+    char* p = (char*)vf_alloc(LIMN + 1);
+    for (sz i = 0; i < LIMN; i++) p[i] = (i < LEAD || i + TAIL >= LIMN) ? char(vf_nd_u8()) : LIMTXT[i];
+    p[LIMN] = '\0';
+    return p;
+}
+#else
+static constexpr sz LIMN = 0;
+static char* limz() { return nullptr; }
+#endif
 static int std_cls(std::errc e) { return e == std::errc{} ? 0 : e == std::errc::value_too_large ? 1 : e == std::errc::result_out_of_range ? 2 : e == std::errc::invalid_argument ? 3 : 4; }
 
 // ---------------------------------------------------------------- from_chars vs std::from_chars
@@ -133,9 +155,9 @@ Q q_to_integer()
         vf_assert(*oe == s + r.consumed, "to_integer end == one past the last digit (also on overflow, as strtol)");
 }
 
-template <class R, class F> static void check_strto(F kernel, bool nullend)
+template <class R, bool LIM = false, class F> static void check_strto(F kernel, bool nullend)
 {
-    char* s = symz(); int base = nd_base0();
+    char* s = LIM ? limz() : symz(); int base = nd_base0();
     RefParse r = ref_strto<R>(s, zlen(s), base);
     KNOWN_STRTO_REGIONS(r, base, std::is_unsigned_v<R>);
     if (KF_MODE(C10_to_integer_overflow_result) == 2) vf_assume(r.err == 2);
@@ -145,8 +167,15 @@ template <class R, class F> static void check_strto(F kernel, bool nullend)
         vf_assert(U64(v) == r.bits, "strto* value == C standard (0 if no conversion, the limit on overflow)");
         if (!nullend) vf_assert(*last == s + r.consumed, "strto* end pointer == C standard");
     }
-    if (r.err == 0) { WIT_PARSED; vf_assert(nullend || *last != s, "strto*: a conversion consumes at least one character"); }
-    if (r.err == 1) { vf_witness("no_conversion"); vf_assert(v == 0, "strto*: 0 when no conversion is performed"); }
+    if constexpr (!LIM) {
+        if (r.err == 0) { WIT_PARSED; vf_assert(nullend || *last != s, "strto*: a conversion consumes at least one character"); }
+        if (r.err == 1) { vf_witness("no_conversion"); vf_assert(v == 0, "strto*: 0 when no conversion is performed"); }
+    } else {
+        if (r.err == 0) { vf_witness("limit_text_parsed"); vf_assert(nullend || *last != s, "strto*: a conversion consumes at least one character"); }
+    }
+    if constexpr (LIM && std::is_unsigned_v<R>) {
+        if (r.err == 0 && (r.bits >> 63) != 0) { vf_witness("upper_half"); vf_assert((U64(v) >> 63) != 0, "strtoul/strtoull accept values above LONG_MAX"); }
+    }
 }
 Q q_strtol() { check_strto<long>(k_strtol, false); }
 Q q_strtoll() { check_strto<long long>(k_strtoll, false); }
@@ -156,16 +185,20 @@ Q q_strtol_null() { check_strto<long>(k_strtol, true); }
 Q q_strtoul_null() { check_strto<unsigned long>(k_strtoul, true); }
 
 // atoi/atol/atoll: strtol(s, nullptr, 10) narrowed; behaviour is undefined in C when the value is not representable (assumed away)
-template <class R, class F> static void check_ato(F kernel)
+template <class R, bool LIM = false, class F> static void check_ato(F kernel)
 {
-    char* s = symz();
+    char* s = LIM ? limz() : symz();
     RefParse r = ref_strto<R>(s, zlen(s), 10);
     vf_assume(r.err != 2);
     VF_KNOWN(C10_strto_plus_sign, r.plus);
     R v = kernel(s);
     vf_assert(U64(v) == r.bits, "ato* value == strtol(s, nullptr, 10)");
-    if (r.err == 0) { WIT_PARSED; vf_assert(U64(v) == r.bits, "ato*: parsed value"); }
-    if (r.err == 1) { vf_witness("no_conversion"); vf_assert(v == 0, "ato*: 0 when no conversion is performed"); }
+    if constexpr (!LIM) {
+        if (r.err == 0) { WIT_PARSED; vf_assert(U64(v) == r.bits, "ato*: parsed value"); }
+        if (r.err == 1) { vf_witness("no_conversion"); vf_assert(v == 0, "ato*: 0 when no conversion is performed"); }
+    } else {
+        if (r.err == 0) { vf_witness("limit_text_parsed"); vf_assert(U64(v) == r.bits, "ato*: parsed value"); }
+    }
 }
 Q q_atoi() { check_ato<int>(k_atoi); }
 Q q_atol() { check_ato<long>(k_atol); }
@@ -173,17 +206,21 @@ Q q_atoll() { check_ato<long long>(k_atoll); }
 
 // sto*: std::sto* = strto* on the characters + exceptions. etl has no exceptions: texts on which std::sto* throws
 // (no conversion: invalid_argument, out of range: out_of_range) are outside this check (ASSUMPTIONS in spec.py).
-template <class R, class F> static void check_sto(F kernel, bool nullpos)
+template <class R, bool LIM = false, class F> static void check_sto(F kernel, bool nullpos)
 {
-    char* s = sym(); int base = nd_base0();
-    RefParse r = ref_strto<R>(s, SN, base);
+    constexpr sz TN = LIM ? LIMN : sz(SN);   // the view covers exactly the text, no terminator is passed
+    char* s = LIM ? limz() : sym(); int base = nd_base0();
+    RefParse r = ref_strto<R>(s, TN, base);
     vf_assume(r.err == 0);
     KNOWN_STRTO_REGIONS(r, base, std::is_unsigned_v<R>);
     sz* pos = nullpos ? nullptr : (sz*)vf_alloc(sizeof(sz));
     if (pos) *pos = vf_nd_u64();
-    R v = kernel(s, SN, pos, base);
+    R v = kernel(s, TN, pos, base);
     vf_assert(U64(v) == r.bits, "sto* value == std::sto*");
     if (pos) vf_assert(*pos == r.consumed, "sto* *pos == number of characters processed");
+    if constexpr (LIM && std::is_unsigned_v<R>) {
+        if ((r.bits >> 63) != 0) { vf_witness("upper_half"); vf_assert((U64(v) >> 63) != 0, "stoul/stoull accept values above LONG_MAX"); }
+    }
 }
 #if SN >= 1
 Q q_stoi() { check_sto<int>(k_stoi, false); }
@@ -199,4 +236,20 @@ Q q_stoi_def()
     VF_KNOWN(C10_strto_plus_sign, r.plus);
     vf_assert(U64(k_stoi_def(s, SN)) == r.bits, "stoi(str) == std::stoi(str)");
 }
+#endif
+
+// ---------------------------------------------------------------- every wrapper at the limits of its result type
+#ifdef LIMTXT
+Q q_lim_strtol() { check_strto<long, true>(k_strtol, false); }
+Q q_lim_strtoll() { check_strto<long long, true>(k_strtoll, false); }
+Q q_lim_strtoul() { check_strto<unsigned long, true>(k_strtoul, false); }
+Q q_lim_strtoull() { check_strto<unsigned long long, true>(k_strtoull, false); }
+Q q_lim_atoi() { check_ato<int, true>(k_atoi); }
+Q q_lim_atol() { check_ato<long, true>(k_atol); }
+Q q_lim_atoll() { check_ato<long long, true>(k_atoll); }
+Q q_lim_stoi() { check_sto<int, true>(k_stoi, false); }
+Q q_lim_stol() { check_sto<long, true>(k_stol, false); }
+Q q_lim_stoll() { check_sto<long long, true>(k_stoll, false); }
+Q q_lim_stoul() { check_sto<unsigned long, true>(k_stoul, false); }
+Q q_lim_stoull() { check_sto<unsigned long long, true>(k_stoull, false); }
 #endif
